@@ -72,7 +72,10 @@ def _tlc(args, env=None, timeout=3000, heap=None, cwd=SPEC, deque=False):
     e = dict(os.environ)
     if env:
         e.update({k: str(v) for k, v in env.items()})
-    cmd = ["java", "-XX:+UseParallelGC"]
+    # TLC creates a scratch directory per run under java.io.tmpdir: keep it under out/, not /tmp
+    jtmp = os.path.join(OUT, "tlc", "tmp")
+    os.makedirs(jtmp, exist_ok=True)
+    cmd = ["java", "-XX:+UseParallelGC", "-Djava.io.tmpdir=" + jtmp]
     if heap:
         cmd.append("-Xmx" + heap)
     if deque:
